@@ -704,7 +704,7 @@ func c20Clock(c *fw.Ctx) {
 			}
 			pos := c.P.Pos(dc.Call.Pos())
 			// the numeric part: everything but the prefix constant must come from the clock and the duration
-			c.CheckDerives(args[1], dc.Fr, fw.FlowSpec{IsSource: func(v ssa.Value) bool {
+			c.CheckDerives(args[1], dc.Fr, fw.FlowSpec{IsSourceIn: func(v ssa.Value, fr *fw.Frame) bool {
 				if isConstStr("time < ")(v) {
 					return true
 				}
@@ -714,7 +714,8 @@ func c20Clock(c *fw.Ctx) {
 				if _, isC := v.(*ssa.Const); isC {
 					return true
 				}
-				s := fw.Sig(v)
+				// the requested duration, as the field of the options however deep in helpers it is read
+				s := fw.SigIn(fr, v)
 				return strings.HasSuffix(s, "param:op.Duration") || strings.HasSuffix(s, "param:op.Duration)")
 			}, Arith: true, All: true, Through: nowOnly}, "4 clock", "the expiry caveat is computed from time.Now().Unix() and the requested duration only", pos, "", "the expiry caveat "+fw.Sig(args[1])+" is not time.Now().Unix() + Duration (rounding, a relative clock or another offset changes when the token stops validating)")
 		}
